@@ -1,7 +1,7 @@
 (* A concrete reachable state for the Examples of Properties/C15.v: the history below leaves
    auction 0 (batch) in the middle of its extended rounds with flagged bids, and auction 1 (fixed price)
    in vesting with two instalments, the first one released; two allowed bidders each. *)
-From Coq Require Import ZArith NArith List Bool Arith.
+From Coq Require Import ZArith NArith List Bool Arith Lia.
 From FR Require Import Dec Types Bank Match Step Genesis Model Spec Checkers.
 From FR.Proofs Require Import InvDefs.
 Import ListNotations.
@@ -48,3 +48,111 @@ Proof.
   - split; reflexivity.
   - split; [intros id _; repeat split|intros a []].
 Qed.
+
+(* ------------------------------------------------------------------ the invariant holds in g_state *)
+(* g_lit is g_state with every field computed; the counters and the bank are closures over literals *)
+Definition g_lit : state := Eval vm_compute in g_state.
+Lemma g_lit_eq : g_state = g_lit.
+Proof. vm_compute. reflexivity. Qed.
+
+Ltac fin := vm_compute; repeat split; try reflexivity; try discriminate;
+            try (let HH := fresh in intro HH; discriminate HH); try lia; auto.
+
+Lemma g_lit_ids : ids_seq g_lit. Proof. vm_compute. reflexivity. Qed.
+
+Lemma g_lit_auctions : auctions_wf g_lit.
+Proof.
+  unfold auctions_wf. cbn [st_auctions g_lit].
+  constructor; [|constructor; [|constructor]]; constructor; fin.
+Qed.
+
+Ltac case_id id := destruct id as [|[?p|?p|]].
+
+Lemma g_lit_bids : bids_wf g_lit.
+Proof.
+  split.
+  - cbn [st_bids g_lit]. repeat (apply Forall_cons || apply Forall_nil).
+    all: constructor; [fin|fin|fin|].
+    all: eexists; split; [vm_compute; reflexivity|].
+    all: fin.
+  - intros id. case_id id; vm_compute; reflexivity.
+Qed.
+
+Lemma g_lit_allowed : allowed_wf g_lit.
+Proof.
+  split.
+  - cbn [st_allowed g_lit]. repeat (apply Forall_cons || apply Forall_nil); reflexivity.
+  - vm_compute. repeat (apply NoDup_cons || apply NoDup_nil); cbn; intuition discriminate.
+Qed.
+
+Lemma g_lit_bids_allowed : bids_allowed g_lit.
+Proof.
+  intros b Hb. vm_compute in Hb.
+  repeat (destruct Hb as [<-|Hb]; [vm_compute; discriminate|]). destruct Hb.
+Qed.
+
+Lemma g_lit_remaining : remaining_inv g_lit.
+Proof.
+  intros a Ha. vm_compute in Ha.
+  repeat (destruct Ha as [<-|Ha]; [fin|]). destruct Ha.
+Qed.
+
+Lemma g_lit_vqs : vqs_wf g_lit.
+Proof.
+  split; [|split].
+  - cbn [st_vqs g_lit]. repeat (apply Forall_cons || apply Forall_nil).
+    all: constructor; [fin|].
+    all: eexists; split; [vm_compute; reflexivity|].
+    all: fin.
+  - vm_compute. repeat (apply NoDup_cons || apply NoDup_nil); cbn; intuition discriminate.
+  - intros a Ha. vm_compute in Ha. destruct Ha as [<-|[<-|[]]].
+    + intros [Hs|Hs]; discriminate Hs.
+    + intros _ _. split; [vm_compute; reflexivity|]. exists 1%nat. vm_compute. reflexivity.
+Qed.
+
+Lemma g_lit_mlen : mlen_inv g_lit.
+Proof. intros id. case_id id; vm_compute; reflexivity. Qed.
+
+Lemma g_lit_params : params_wf g_lit.
+Proof. split; vm_compute; reflexivity. Qed.
+
+Lemma g_lit_fresh : fresh_inv g_lit.
+Proof.
+  split.
+  - intros id. case_id id; intros Hle; try (exfalso; vm_compute in Hle; apply Hle; reflexivity);
+      vm_compute; repeat split; reflexivity.
+  - intros a Ha. vm_compute in Ha. destruct Ha as [<-|[<-|[]]]; intros [Hs|Hs]; discriminate Hs.
+Qed.
+
+Lemma g_lit_bal_nonneg x d : 0 <= st_bal g_lit x d.
+Proof.
+  let t := eval vm_compute in (st_bal g_lit x d) in change (0 <= t).
+  repeat match goal with |- 0 <= (if ?c then _ else _) => destruct c; [lia|] end. destruct x; lia.
+Qed.
+
+Lemma g_lit_escrow : escrow_inv g_lit.
+Proof.
+  split; [exact g_lit_bal_nonneg|].
+  intros r id d. case_id id.
+  - destruct r; destruct d as [|[q|[q|q|]|]]; vm_compute; intro HH; discriminate HH.
+  - replace (owed g_lit r (N.pos p~1) d) with 0 by (vm_compute; reflexivity). apply g_lit_bal_nonneg.
+  - replace (owed g_lit r (N.pos p~0) d) with 0 by (vm_compute; reflexivity). apply g_lit_bal_nonneg.
+  - destruct r; destruct d as [|[q|[q|q|]|]]; vm_compute; intro HH; discriminate HH.
+Qed.
+
+Theorem g_state_Inv : Inv g_state.
+Proof.
+  rewrite g_lit_eq. constructor.
+  - exact g_lit_ids.
+  - exact g_lit_auctions.
+  - exact g_lit_bids.
+  - exact g_lit_allowed.
+  - exact g_lit_bids_allowed.
+  - exact g_lit_remaining.
+  - exact g_lit_vqs.
+  - exact g_lit_escrow.
+  - exact g_lit_mlen.
+  - exact g_lit_params.
+  - exact g_lit_fresh.
+Qed.
+Print Assumptions g_state_Inv.
